@@ -25,6 +25,7 @@ Prod == [
   unit  |-> Atom("Unit", "()"),        tru  |-> Atom("True", "$?"),         fls  |-> Atom("False", "$!"),
   syma  |-> Atom("Symbol", ":a"),      symb |-> Atom("Symbol", ":b"),      symc |-> Atom("Symbol", ":c"),
   strs  |-> Atom("CharList", "\"s\""), stre |-> Atom("CharList", "\"\""),   strab |-> Atom("CharList", "\"ab\""),
+  byab  |-> Atom("ByteList", "'ab'"),   bys  |-> Atom("ByteList", "'s'"),
   val   |-> Atom("Value", "$"),        ida  |-> Atom("Identifier", "a"),    idb  |-> Atom("Identifier", "b"),  idc |-> Atom("Identifier", "c"),
   \* ---- binary operators (priority, parser definition, spelling)
   acc   |-> Bin(30, "Access", "."),
